@@ -779,8 +779,8 @@ def check_dunder_publish(value, with_model):
         sess.render()
         c = sess.impl.c
         if sess.status() != "failed":
-            out.append(problem("dunder_publish", "publish ctx('__state')", "publishing <% ctx('__state') %> did not "
-                               "fail the workflow (status %s)" % sess.status(), value_wire=enc(value)))
+            out.append(problem("dunder_publish", "publish ctx('__state')", "publishing ctx('__state') did not fail the "
+                               "workflow (status %s)" % sess.status(), value_wire=enc(value)))
         for i, cx in enumerate(c.workflow_state.contexts):
             bad = [k for k in cx if k.startswith("__")] if i >= 1 else []
             for k in ("a", "b"):
